@@ -24,16 +24,17 @@ class Corpus:
     def add(self, prog):
         self.programs[prog.pid] = prog
 
-    def write(self, K, extra_adv=0, nlo=-1, nhi=3, group=lambda p: p.family):
+    def write(self, K, extra_adv=0, nlo=-1, nhi=3, group=lambda p: p.family, batch=None):
+        batch = batch or BATCH
         ws = self.ctx.ws
         groups = {}
         for pid, p in sorted(self.programs.items()):
             groups.setdefault(group(p), []).append(p)
         self.batches = []
         for g, ps in sorted(groups.items()):
-            for i in range(0, len(ps), BATCH):
-                d = "%s_%s_%d" % (self.fam, g, i // BATCH)
-                self._write_pkg(d, ps[i:i + BATCH], K, extra_adv, nlo, nhi)
+            for i in range(0, len(ps), batch):
+                d = "%s_%s_%d" % (self.fam, g, i // batch)
+                self._write_pkg(d, ps[i:i + batch], K, extra_adv, nlo, nhi)
                 self.batches.append(d)
 
     def _write_pkg(self, d, ps, K, extra_adv, nlo, nhi):
